@@ -29,7 +29,7 @@ same oracle. json: random whole files (all optional fields, comments with JSON-s
 characters, key infos of every length mod 3, provider lists) -> to_string / to_string_pretty / to_writer / \
 to_writer_pretty -> from_str / from_reader == original; iter_payload() yields, per kind and in order, exactly the \
 payloads with the assertions' fields. non-trivial = >=2 filter kinds populated and a payload of a non-prefix kind \
-(drop-*), file with >=2 assertion kinds and a comment (json).";
+(drop-*), file with >=2 assertion kinds and a comment (json). Every prefix of a filter, assertion or payload is also built through new_relaxed and from_str_relaxed (from an address with host bits set), from_str, Deserialize and the generic constructor; all must equal the strictly constructed one.";
 
 //------------ plain data ------------------------------------------------------
 
